@@ -1138,6 +1138,15 @@ impl Scenario for RxSim {
                     }
                     w.rx.led.borrow_mut().arm(mo, op.get_u("nth"));
                 }
+                "ctxfault" => {
+                    // storage corruption of a parked context: only totality, conservation and recovery speak
+                    // about such a state (C05, C08, C16); the delivery oracles do not apply to it
+                    if target == "C05" || target == "C08" || target == "C16" {
+                        w.rx.led.borrow_mut().arm_ctx(op.get_u("nth"), op.get_u("field") as u8, op.get_u("val"));
+                    } else {
+                        st.inc("nofire.ctxfault_not_applicable");
+                    }
+                }
                 "audit" => {
                     if w.audit(st, "mid_run") {
                         break 'ops;
@@ -1280,6 +1289,8 @@ impl Scenario for RxSim {
                 *v,
             );
         }
+        st.add("fault.ctx_corrupted_on_take", w.rx.led.borrow().ctx_fired);
+        st.add("probe.ctx_pdu_len_beyond_storage", w.rx.led.borrow().ctx_beyond_storage);
         let unfired = w.rx.led.borrow().faults.iter().filter(|f| !f.fired).count() as u64;
         st.add("nofire.mem_fault_never_reached", unfired);
         if w.viol.is_none() && target == "C08" {
@@ -1900,6 +1911,22 @@ pub mod gen {
         ops
     }
 
+    /// storage corruption of a parked reassembly context (a stored word flipped): see nodes::CtxFault
+    fn ctxfault_op(rng: &mut Rng, maxpdu: usize) -> Op {
+        let field = *rng.pick(&[0u64, 0, 0, 0, 1, 1, 2, 3, 4]);
+        let val = match rng.below(8) {
+            0 => 0,
+            1 => 1,
+            2 => maxpdu as u64,
+            3 => maxpdu as u64 + 1,
+            4 => 0xFFFF,
+            5 => 0x8000,
+            6 => rng.below(3 * maxpdu as u64 + 4),
+            _ => rng.below(65536),
+        };
+        Op::new("ctxfault").u("nth", rng.below(3)).u("field", field).u("val", val)
+    }
+
     fn gen_c05(idx: u64, rng: &mut Rng, tier: Tier) -> Program {
         let table = std_table();
         // state class: open contexts x label memory x free list fill x storage vs fragment size
@@ -1921,6 +1948,9 @@ pub mod gen {
         if rng.chance(1, 2) {
             let mo = rng.below(5);
             ops.push(Op::new("memfault").u("op", mo).u("nth", rng.below(4)));
+        }
+        if rng.chance(1, 3) {
+            ops.push(ctxfault_op(rng, maxpdu));
         }
         // enumerative part: the first indices are sweeps
         let (n0, n1, n2) = if tier == Tier::Quick { (34u64, 0u64, 2048u64) } else { (34, 4096, 32768) };
@@ -2014,7 +2044,13 @@ pub mod gen {
                             }
                         }
                     }
-                    _ => ops.push(Op::new("memfault").u("op", rng.below(5)).u("nth", rng.below(3))),
+                    _ => {
+                        if rng.chance(1, 2) {
+                            ops.push(Op::new("memfault").u("op", rng.below(5)).u("nth", rng.below(3)))
+                        } else {
+                            ops.push(ctxfault_op(rng, maxpdu))
+                        }
+                    }
                 }
             }
         }
@@ -2041,7 +2077,13 @@ pub mod gen {
                 0 => ops.push(Op::new("prov").u("size", *rng.pick(&[(maxpdu - 1) as u64, maxpdu as u64, maxpdu as u64 + 1, maxpdu as u64]))),
                 1 | 2 => ops.push(Op::new("ret").u("n", rng.range(1, 3))),
                 3 => ops.push(Op::new("reset")),
-                4 => ops.push(Op::new("memfault").u("op", rng.below(4)).u("nth", rng.below(3))),
+                4 => {
+                    if rng.chance(2, 3) {
+                        ops.push(Op::new("memfault").u("op", rng.below(4)).u("nth", rng.below(3)))
+                    } else {
+                        ops.push(ctxfault_op(rng, maxpdu))
+                    }
+                }
                 5 => ops.push(feed(junk(rng), 9)),
                 6 => ops.push(Op::new("audit")),
                 7 => {
@@ -2137,7 +2179,13 @@ pub mod gen {
                 0 | 1 => ops.push(feed(junk(rng), 9)),
                 2 => ops.push(Op::new("prov").u("size", *rng.pick(&[1u64, maxpdu as u64 - 1, maxpdu as u64, maxpdu as u64 + 7]))),
                 3 => ops.push(Op::new("ret").u("n", rng.range(1, 4))),
-                4 => ops.push(Op::new("memfault").u("op", rng.below(5)).u("nth", rng.below(3))),
+                4 => {
+                    if rng.chance(2, 3) {
+                        ops.push(Op::new("memfault").u("op", rng.below(5)).u("nth", rng.below(3)))
+                    } else {
+                        ops.push(ctxfault_op(rng, maxpdu))
+                    }
+                }
                 5 => ops.push(Op::new("reset")),
                 6 => {
                     let j = junk(rng);
